@@ -293,7 +293,7 @@ func (mq *MessageQueue) scrubResponses(requestIDs []graphsync.RequestID) uint64 
 	newBuilders := make([]*Builder, 0, len(mq.builders))
 	totalFreed := uint64(0)
 	for _, builder := range mq.builders {
-		totalFreed = builder.ScrubResponses(requestIDs)
+		totalFreed += builder.ScrubResponses(requestIDs)
 		mq.verifAt("scrub", builder.topic, builder)
 		if !builder.Empty() {
 			newBuilders = append(newBuilders, builder)
